@@ -12,7 +12,8 @@ domain is executed on the real formatter obtained from the registry:
                levels by one unit still round-trips through annet's own tolerant split; this stage is what sees it.)
   2 fixed      with s = fmt.join(t):  fmt.join(parse_to_tree(s, fmt.split)) == s
   3 gen        stages 1 and 1b through annet.gen.format_config_blocks(t, hw, "  ") (what `annet gen` writes),
-               parsed with the default formatter's split as annet.gen / annet.api / annet.diff do
+               parsed with the default formatter's split as annet.gen / annet.api / annet.diff do; for forests of <= 4
+               nodes also with the indent units TAB, four blanks and one blank (tree equality only)
   4 device     the forest printed in the device's own style by an independent printer (mc/ref/vendortext.py:
                '#'/'!' separators, block terminators, old-IOS flat address-family, braces, SECRET-DATA comments,
                Nokia configure{} wrapper, RouterOS /path headers - each taken from the project's own fixtures)
@@ -85,6 +86,7 @@ BUDGET = {"quick": 150, "thorough": 900}
 MAX_DEPTH = 5
 GEN_INDENT = "  "
 GEN_REAL_MAX = 4
+GEN_OTHER_INDENTS = ["\t", "    ", " "]
 TIER_N = {"quick": {"default": 5, "routeros": 7}, "thorough": {"default": 6, "routeros": 8}}
 # thorough also runs exactly N_EXT nodes over reduced alphabets
 REDUCED = {
@@ -277,6 +279,17 @@ def _join_side(fx, forest, want):
         canon = vt.canonical_text(fx.family, want, GEN_INDENT)
         if canon is not None and g != canon:
             return evals, [("gen-blocks-syntax", "format_config_blocks text = %r\nplain rendering = %r" % (g, canon))], lines
+        # 3b: other indent units a user may pass to `annet gen --indent` (a TAB, four blanks, one blank); the text is read
+        #     back with the vendor's default formatter, as annet does with saved configurations
+        if menum.size(forest) <= GEN_REAL_MAX and vt.depth(forest) >= 2:
+            for unit in GEN_OTHER_INDENTS:
+                stage = "format_config_blocks(indent=%r)" % unit
+                gu = fx.fcb(env.to_odict(want), fx.hw, unit)
+                got = env.tree_to_list(parse(gu, fmt.split))
+                evals += 2
+                if got != want:
+                    return evals, [("gen-blocks-indent", "indent=%r text:\n%s\nparsed back: %r\nexpected:    %r\n%s"
+                                    % (unit, gu, got, want, _first_diff(want, got)))], lines
     except Exception as e:  # the property says these calls succeed on the domain
         return evals + 1, [_exc(stage, e)], lines
     return evals, [], lines
